@@ -412,6 +412,36 @@ pub fn alter(ctx: &mut Ctx) {
     ctx.rule = "valid archives (all writer kinds, random codec/cipher) x byte offsets x XOR masks: quick = every offset of small archives with one random \
                 single-bit mask plus sampled offsets with all 8 single-bit masks; thorough = every offset x all 255 masks on small archives; \
                 through the four entry/raw read paths and both chunk iterators; non-trivial = offset >= 8; distinct by request line".into();
+    // deterministic witness of the known finding C05-length-field-embedded-frame (Lean: Pna.C05A.length_alteration_can_go_undetected):
+    // a data chunk whose payload embeds a CRC-consistent frame; changing one byte of its LENGTH field re-frames the payload
+    {
+        let mut inner = vec![1u8];
+        inner.extend_from_slice(&gen::frame(b"FDAT", &[1])[9..13]); // CRC of (FDAT, [1])
+        inner.extend(gen::frame(b"FEND", &[]));
+        inner.extend(gen::frame(b"AEND", &[]));
+        let mut full = gen::SIG.to_vec();
+        full.extend(gen::frame(b"AHED", &[0; 8]));
+        full.extend(gen::frame(b"FHED", &[0, 0, 0, 0, 0, 0, b'a']));
+        full.extend(gen::frame(b"FDAT", &inner));
+        full.extend(gen::frame(b"FEND", &[]));
+        full.extend(gen::frame(b"AEND", &[]));
+        assert_eq!(full[50], 29);
+        let mut input = full.clone();
+        input[50] = 1;
+        let orig = read_paths(&full);
+        let answers = read_paths(&input);
+        ctx.oracle_eval();
+        for (i, (name, a)) in answers.iter().enumerate() {
+            let ok = if i < 2 { a.ends_with(" end") } else { a.contains("end=ok") };
+            if ok && *a != orig[i].1 && i == 2 {
+                ctx.violation("C05", "a crafted alteration of a length-field byte is read successfully with different content (the payload embeds a CRC-consistent frame)",
+                    json!({"embedded_frame_witness": true, "full": hex(&full), "offset": 50, "mask": 28, "path": name, "answer": a, "original_answer": orig[i].1}));
+            }
+        }
+        for (name, a) in answers {
+            ctx.case(json!({"archive":"embedded-frame witness","offset":50,"mask":28,"path":name}), format!("{} {}", name, hexw(&input)), a, true);
+        }
+    }
     let n_arch = if ctx.thorough { 12 } else { 5 };
     for ai in 0..n_arch {
         let (full, desc, _) = gen::gen_archive(&mut rng, 2, 20);
